@@ -168,39 +168,35 @@ Fixpoint lookup (i : N) (cks : list (N * option (list N))) : option (list N) :=
 Definition remove_ckpt (i : N) (cks : list (N * option (list N))) : list (N * option (list N)) :=
   filter (fun p => negb (i =? fst p)) cks.
 
-(* rockredis.purgeOldCheckpoint(keepNum, dir, latestSnapIndex) on the list sorted by name:
+(* rockredis.purgeOldCheckpoint(keepNum, dir, latestSnapIndex) on the names sorted by index:
    for i < len-keepNum: if index(name[i+keepNum]) >= latest then stop, else remove name[i] *)
-Fixpoint insert_sorted (p : N * option (list N)) (l : list (N * option (list N))) : list (N * option (list N)) :=
+Fixpoint insert_sorted (x : N) (l : list N) : list N :=
   match l with
-  | [] => [p]
-  | q :: t => if fst p <=? fst q then p :: l else q :: insert_sorted p t
+  | [] => [x]
+  | y :: t => if x <=? y then x :: l else y :: insert_sorted x t
   end.
-Definition sort_ckpts (l : list (N * option (list N))) : list (N * option (list N)) := fold_right insert_sorted [] l.
+Definition sortN (l : list N) : list N := fold_right insert_sorted [] l.
 
-Fixpoint purge_ckpt_loop (sorted : list (N * option (list N))) (ahead : list (N * option (list N))) (latest : N) (n : nat)
-  : list (N * option (list N)) :=
-  (* sorted = names from position i on; ahead = names from position i+keepNum on; n = iterations left *)
-  match n with
-  | O => sorted
-  | S k =>
-    match sorted, ahead with
-    | x :: st, a :: at' => if latest <=? fst a then sorted else purge_ckpt_loop st at' latest k
-    | _, _ => sorted
-    end
+Fixpoint purge_victims_loop (sorted ahead : list N) (latest : N) : list N :=
+  (* sorted = names from position i on; ahead = names from position i+keepNum on *)
+  match sorted, ahead with
+  | x :: st, a :: at' => if latest <=? a then [] else x :: purge_victims_loop st at' latest
+  | _, _ => []
   end.
 
-(* the next directory purgeOldCheckpoint removes, if any: the oldest one, provided the name keepNum places
-   further has an index below latest *)
-Definition purge_next (keep : nat) (latest : N) (cks : list (N * option (list N))) : option N :=
-  let s := sort_ckpts cks in
-  match s, skipn keep s with
-  | x :: _, a :: _ => if latest <=? fst a then None else Some (fst x)
-  | _, _ => None
-  end.
+Definition purge_victims (keep : nat) (latest : N) (keys : list N) : list N :=
+  let s := sortN keys in purge_victims_loop s (skipn keep s) latest.
 
 Definition purge_ckpts (keep : nat) (latest : N) (cks : list (N * option (list N))) : list (N * option (list N)) :=
-  let s := sort_ckpts cks in
-  if Nat.ltb keep (length s) then purge_ckpt_loop s (skipn keep s) latest (length s - keep) else s.
+  let v := purge_victims keep latest (map fst cks) in
+  filter (fun p => negb (memN (fst p) v)) cks.
+
+(* the next directory purgeOldCheckpoint removes, if any *)
+Definition purge_next (keep : nat) (latest : N) (cks : list (N * option (list N))) : option N :=
+  match purge_victims keep latest (map fst cks) with
+  | x :: _ => Some x
+  | [] => None
+  end.
 
 (* the whole restart as one function of the persistent world: the engine content that is served once
    every entry found in the WAL has been replayed (a single-replica group commits its whole log) *)
@@ -234,9 +230,9 @@ Record batch := mkBatch { b_first : N; b_last : N; b_n : N }.
 
 Inductive rd_pc :=
 | RdIdle
-| RdBegun (r : ready) (saved published : bool)
-| RdSaving (r : ready) (published appended : bool)
-| RdCutting (r : ready) (published : bool) (idx : N)
+| RdBegun (r : ready) (sv pb : bool)          (* the Ready's records are saved / its committed entries are published *)
+| RdSaving (r : ready) (pb apd : bool)         (* inside wal.Save; apd: the records are encoded already (a cut is going on) *)
+| RdCutting (r : ready) (pb : bool) (idx : N)
 | RdAppended (r : ready).
 
 Inductive ap_pc :=
@@ -288,7 +284,7 @@ Record state := mkState {
   sns : list (N * sn_pc);
   ckp : ck_pc;
   pg_wal : bool;
-  pg_snap : bool;
+  pg_snap : option N;
   acked : N;
   proposed : N
 }.
@@ -316,7 +312,7 @@ Definition set_snapi (s : state) (v : N) : state := mkState (segs s) (unflushed 
 Definition set_sns (s : state) (v : list (N * sn_pc)) : state := mkState (segs s) (unflushed s) (unsynced s) (snapfiles s) (ckpts s) (engine s) (rc s) (nrel s) (wstate s) (wcommit s) (hcommit s) (latest s) (rdp s) (rdseq s) (rd_done s) (rs_last s) (published s) (queue s) (app s) (applied s) (snapi s) v (ckp s) (pg_wal s) (pg_snap s) (acked s) (proposed s).
 Definition set_ckp (s : state) (v : ck_pc) : state := mkState (segs s) (unflushed s) (unsynced s) (snapfiles s) (ckpts s) (engine s) (rc s) (nrel s) (wstate s) (wcommit s) (hcommit s) (latest s) (rdp s) (rdseq s) (rd_done s) (rs_last s) (published s) (queue s) (app s) (applied s) (snapi s) (sns s) v (pg_wal s) (pg_snap s) (acked s) (proposed s).
 Definition set_pg_wal (s : state) (v : bool) : state := mkState (segs s) (unflushed s) (unsynced s) (snapfiles s) (ckpts s) (engine s) (rc s) (nrel s) (wstate s) (wcommit s) (hcommit s) (latest s) (rdp s) (rdseq s) (rd_done s) (rs_last s) (published s) (queue s) (app s) (applied s) (snapi s) (sns s) (ckp s) v (pg_snap s) (acked s) (proposed s).
-Definition set_pg_snap (s : state) (v : bool) : state := mkState (segs s) (unflushed s) (unsynced s) (snapfiles s) (ckpts s) (engine s) (rc s) (nrel s) (wstate s) (wcommit s) (hcommit s) (latest s) (rdp s) (rdseq s) (rd_done s) (rs_last s) (published s) (queue s) (app s) (applied s) (snapi s) (sns s) (ckp s) (pg_wal s) v (acked s) (proposed s).
+Definition set_pg_snap (s : state) (v : option N) : state := mkState (segs s) (unflushed s) (unsynced s) (snapfiles s) (ckpts s) (engine s) (rc s) (nrel s) (wstate s) (wcommit s) (hcommit s) (latest s) (rdp s) (rdseq s) (rd_done s) (rs_last s) (published s) (queue s) (app s) (applied s) (snapi s) (sns s) (ckp s) (pg_wal s) v (acked s) (proposed s).
 Definition set_acked (s : state) (v : N) : state := mkState (segs s) (unflushed s) (unsynced s) (snapfiles s) (ckpts s) (engine s) (rc s) (nrel s) (wstate s) (wcommit s) (hcommit s) (latest s) (rdp s) (rdseq s) (rd_done s) (rs_last s) (published s) (queue s) (app s) (applied s) (snapi s) (sns s) (ckp s) (pg_wal s) (pg_snap s) v (proposed s).
 Definition set_proposed (s : state) (v : N) : state := mkState (segs s) (unflushed s) (unsynced s) (snapfiles s) (ckpts s) (engine s) (rc s) (nrel s) (wstate s) (wcommit s) (hcommit s) (latest s) (rdp s) (rdseq s) (rd_done s) (rs_last s) (published s) (queue s) (app s) (applied s) (snapi s) (sns s) (ckp s) (pg_wal s) (pg_snap s) (acked s) v.
 
@@ -325,7 +321,7 @@ Notation "s <| f := v |>" := (f s v) (at level 12, left associativity, f at leve
 
 (* a fresh directory: CleanData, wal.Create writes the marker of the empty snapshot *)
 Definition init_state : state :=
-  mkState [mkSeg 0 [RSnap 0]] 0 0 [] [] (Some []) RcRunning 0 false 0 0 0 RdIdle 0 0 0 0 [] ApIdle 0 0 [] CkIdle false false 0 0.
+  mkState [mkSeg 0 [RSnap 0]] 0 0 [] [] (Some []) RcRunning 0 false 0 0 0 RdIdle 0 0 0 0 [] ApIdle 0 0 [] CkIdle false None 0 0.
 
 (* ---------- events (= the crash point names of the Go code) ---------- *)
 
@@ -372,11 +368,12 @@ Definition ready_records (r : ready) : list rec :=
 (* what the raft library may hand out (checked on every observed Ready by the acceptor):
    entries continue the log without a gap, committed entries continue the published ones and
    exist, the commit index never goes back (neither behind the last one handed out nor behind the last one
-   in the WAL) and covers the committed entries *)
+   in the WAL) and covers the committed entries, and in a process life entries are not saved before a hard
+   state is (a replica first learns or wins a term) *)
 Definition ready_ok (s : state) (r : ready) : bool :=
   let last' := if 0 <? r_n r then r_last r else rs_last s in
   let commit' := if r_hs r then r_commit r else hcommit s in
-  (if 0 <? r_n r then (r_first r =? rs_last s + 1) && (r_last r + 1 =? r_first r + r_n r) else true)
+  (if 0 <? r_n r then (r_first r =? rs_last s + 1) && (r_last r + 1 =? r_first r + r_n r) && (wstate s || r_hs r) else true)
   && (if 0 <? r_cn r then (r_cfirst r =? published s + 1) && (r_clast r + 1 =? r_cfirst r + r_cn r)
                           && (r_clast r <=? last') && (r_clast r <=? commit')
       else true)
@@ -417,7 +414,7 @@ Definition last_of (l : list N) : N := last l 0.
 
 Definition reset_volatile (s : state) : state :=
   mkState (segs s) 0 0 (snapfiles s) (ckpts s) None RcStart (length (segs s)) false 0 0 0 RdIdle 0 0 0 0 [] ApIdle 0 0 []
-          CkIdle false false (acked s) (proposed s).
+          CkIdle false None (acked s) (proposed s).
 
 (* wal.Save: entries and hard state are encoded into the tail segment (still buffered) *)
 Definition save_records (s : state) (r : ready) : state :=
@@ -466,7 +463,9 @@ Definition step (c : config) (s : state) (ev : event) : result state :=
     match rdp s with
     | RdSaving r p false =>
       let s1 := save_records s r in
-      if negb (idx =? last_entry (all_recs (segs s1)) + 1) then Err R_ARG
+      (* a Save without entries and without a hard state returns before it could cut *)
+      if negb ((0 <? r_n r) || r_hs r) then Err R_GUARD
+      else if negb (idx =? last_entry (all_recs (segs s1)) + 1) then Err R_ARG
       else Ok (s1 <| set_unflushed := 0%nat |> <| set_unsynced := if opt_fsync c then unsynced s1 else 0%nat |>
                   <| set_rdp := RdCutting r p idx |>)
     | _ => Err R_PC
@@ -628,19 +627,20 @@ Definition step (c : config) (s : state) (ev : event) : result state :=
       if pg_wal s then Err R_PC
       else if Nat.ltb (eff_keep_wal c) (length (segs s)) && Nat.ltb 0 (nrel s) then Ok (s <| set_pg_wal := true |>) else Err R_GUARD
     else if k =? 4 then
-      if pg_snap s then Err R_PC
-      else if Nat.ltb (eff_keep_snap c) (length (snapfiles s)) then Ok (s <| set_pg_snap := true |>) else Err R_GUARD
+      match pg_snap s, minl (snapfiles s) with
+      | None, Some m => if Nat.ltb (eff_keep_snap c) (length (snapfiles s)) then Ok (s <| set_pg_snap := Some m |>) else Err R_GUARD
+      | None, None => Err R_GUARD
+      | Some _, _ => Err R_PC
+      end
     else Err R_ARG
   | EvPgAfter k =>
     if k =? 3 then
       if pg_wal s then Ok (s <| set_segs := tl (segs s) |> <| set_nrel := Nat.pred (nrel s) |> <| set_pg_wal := false |>) else Err R_PC
     else if k =? 4 then
-      if pg_snap s then
-        match minl (snapfiles s) with
-        | Some m => Ok (s <| set_snapfiles := removeN m (snapfiles s) |> <| set_pg_snap := false |>)
-        | None => Err R_GUARD
-        end
-      else Err R_PC
+      match pg_snap s with
+      | Some m => Ok (s <| set_snapfiles := removeN m (snapfiles s) |> <| set_pg_snap := None |>)
+      | None => Err R_PC
+      end
     else Err R_ARG
   (* ----- process death and restart: startRaft ----- *)
   | EvCrash j extra =>
@@ -656,7 +656,7 @@ Definition step (c : config) (s : state) (ev : event) : result state :=
       | Ok ([], cm) =>
         if existsb (fun r => match r with RState _ => true | _ => false end) (all_recs (segs s)) then Err R_GUARD
         else Ok (mkState [mkSeg 0 [RSnap 0]] 0 0 (snapfiles s) (ckpts s) (Some []) RcRunning 0 false 0 0 0 RdIdle 0 0 0 0 []
-                         ApIdle 0 0 [] CkIdle false false (acked s) (proposed s))
+                         ApIdle 0 0 [] CkIdle false None (acked s) (proposed s))
       | _ => Err R_GUARD
       end
     | _ => Err R_PC
@@ -764,7 +764,7 @@ Definition inflight (s : state) : list event :=
   (match rdp s with RdCutting _ _ idx => [EvCutAfter idx] | _ => [] end)
   ++ flat_map (fun q => match snd q with SnCreated => [EvSnFile (fst q)] | SnFile => [EvSnMarked (fst q)] | _ => [] end) (sns s)
   ++ (match ckp s with CkSaving _ _ => [EvCkPartial] | CkPurging _ => [EvCkPurgeOne; EvCkPurgeOne; EvCkPurgeOne; EvCkPurgeOne] | _ => [] end)
-  ++ (if pg_wal s then [EvPgAfter 3] else []) ++ (if pg_snap s then [EvPgAfter 4] else [])
+  ++ (if pg_wal s then [EvPgAfter 3] else []) ++ (match pg_snap s with Some _ => [EvPgAfter 4] | None => [] end)
   ++ (match rc s with
       | RcStart => match choose_snapshot (segs s) (snapfiles s) with Some i => [EvRcChosen i] | None => [EvRcNone] end
       | RcChosen i => match engine s with Some _ => [EvRcRestored i] | None => [] end
